@@ -5,6 +5,7 @@ CONSTANTS
   IsSync <- Sync2
   MaxOps = 3
   OpKinds <- AllOps
+  FocusMode = FALSE
   WBad = "-"
   WEnd = "-"
 VIEW View
